@@ -57,7 +57,7 @@ Theorem refs_local_partial mode P w f name line col v :
   exists l', references_at mode w f (analyse P) name line col = Some ((f, v_loc v) :: l') /\
              forall x, In x l' <-> In x (spec_uses P f (v_loc v)).
 Proof.
-  intros Hs Hc Hb3 Hlay Hres. unfold references_at. rewrite Hres. cbv zeta.
+  intros Hs Hc Hb3 Hlay Hres. unfold references_at, references_of_target. rewrite Hres. cbv zeta.
   eexists. split; [reflexivity|].
   set (d := v_loc v) in *. intros x. unfold spec_uses. rewrite !in_map_iff. split.
   - intros [o [Hx Ho]]. apply filter_In in Ho. destruct Ho as [Hin Hm].
